@@ -31,7 +31,7 @@ struct Mapping { int proc; uintptr_t addr; size_t len; ShmObj *shm; int prot; ui
 struct Net;
 struct K {
   std::map<int, Proc> procs;
-  std::vector<SemObj *> sem_objs; std::map<std::string, SemObj *> sem_names;
+  std::vector<SemObj *> sem_objs; std::map<std::string, SemObj *> sem_names; std::map<sem_t *, SemObj *> anon_sems; int anon_live = 0;
   std::vector<ShmObj *> shm_objs; std::map<std::string, ShmObj *> shm_names;
   std::vector<Mapping> maps;
   int calls[SC_COUNT] = {0};
